@@ -176,6 +176,37 @@ func c04(c *Ctx) {
 			ec := c.AddEval("$.xs."+name+"("+strings.Join(args, ",")+")", doc, "aggregate", false, n > 1)
 			ec.Check = aggCheck(vals, name)
 		}
+		// the same numbers in homogeneous typed carriers: []float64, [N]float64, []decimal.Decimal, []int where integral, map values
+		if k > 0 {
+			var fl, de, in []*D
+			allInt := true
+			for j := 0; j < k; j++ {
+				f, _ := new(big.Float).SetRat(vals[j]).Float64()
+				fl = append(fl, h.FloatD(f))
+				fr := h.FloatD(f)
+				de = append(de, &D{Tag: "d", Coef: fr.Coef, Exp: fr.Exp})
+				if vals[j].IsInt() && vals[j].Num().IsInt64() {
+					in = append(in, h.Int("int", vals[j].Num().Int64()))
+				} else {
+					allInt = false
+				}
+			}
+			carriers := map[string]*D{"[]float64": h.TypedSlice(fl...), "[N]float64": {Tag: "ar", Ety: "f64", Xs: fl}, "[]decimal": h.TypedSlice(de...)}
+			if allInt {
+				carriers["[]int"] = h.TypedSlice(in...)
+			}
+			mkv := []any{}
+			for j, x := range fl {
+				mkv = append(mkv, fmt.Sprintf("k%d", j), x)
+			}
+			carriers["map"] = h.Obj(mkv...)
+			for cn, cd := range carriers {
+				for _, name := range []string{"Sum", "Average", "Minimum", "Maximum"} {
+					ec := c.AddEval("$.xs."+name+"("+strings.Join(args, ",")+")", h.Obj("xs", cd), "aggregate:"+cn, false, n > 1)
+					ec.Check = aggCheck(vals, name)
+				}
+			}
+		}
 		// the same values stepped across objects: `$.os.v.Sum()`
 		if k == n && n > 0 {
 			objs := []*D{}
